@@ -66,9 +66,22 @@ package redisemu
 //@ loop 1 invariant !mutated && lockMode(ctx.dsc) && dscOK(ctx.dsc)
 //@ ensures internal [C07] plain.get: valid && !changesExpiry ==> !mutated
 
+// C07: the deadline options of SET and GETEX. The deadline is kept as "the last
+// instant the key is still visible" (one nanosecond before the nominal time for
+// EX/PX/EXAT); times are nanoseconds since the epoch.
 //@ func parseArgsWithExpiration
-//@ trusted reads the parsed arguments and the clock; calls the default handler (nil for GETEX) for other arguments
-//@ modifies ghost.now
+//@ prop C07
+//@ mode int
+//@ safetyprop none
+// (the handler for other arguments only records what it saw in its caller's variables)
+//@ callback defaultHandler
+//@ modifies cell alloc
+//@ endcallback
+//@ modifies ghost.now cell alloc
+//@ assertafter "expiration = now.Add(time.Second*" [C07] ex.deadline: 0 < unbox(arg, int64) && unbox(arg, int64) <= 4000000000 ==> expiration == now + 1000000000*unbox(arg, int64) - 1
+//@ assertafter "expiration = now.Add(time.Millisecond*" [C07] px.deadline: 0 < unbox(arg, int64) && unbox(arg, int64) <= 4000000000000 ==> expiration == now + 1000000*unbox(arg, int64) - 1
+//@ assertafter "expiration = time.Unix(arg.(int64), 0)" [C07] exat.deadline: 0 < unbox(arg, int64) && unbox(arg, int64) <= 4000000000 ==> expiration == 1000000000*unbox(arg, int64) - 1
+//@ assertafter "expiration = time.Unix(n/1000, " [C07] pxat.deadline: 0 < unbox(arg, int64) && unbox(arg, int64) <= 4000000000000 ==> expiration == 1000000*unbox(arg, int64)
 
 // C13 / C18: BITCOUNT's range normalisation stays inside the value for every start/end/unit
 //@ func fnBitCount
